@@ -67,3 +67,11 @@ func replaceHint(orig hint.Function, evil hint.Function) backend.ProverOption {
 }
 
 var nBitsHint = bits.NBits
+
+func varsOf(xs []int) []frontend.Variable {
+	out := make([]frontend.Variable, len(xs))
+	for i, x := range xs {
+		out[i] = x
+	}
+	return out
+}
